@@ -125,6 +125,29 @@ resistance of SHA-256 *and* unambiguity of the unframed concatenation `lk ‖ lv
 def H4Inj (H4 : Bytes → Bytes → Bytes → Bytes → Bytes) : Prop :=
   ∀ a b c d a' b' c' d', H4 a b c d = H4 a' b' c' d' → a = a' ∧ b = b' ∧ c = c' ∧ d = d'
 
+/-- a framed, hence injective, stand-in for the node hash: every byte `x` becomes `1 x`, every field ends in `0` -/
+def frame (x : Bytes) : Bytes := x.flatMap (fun b => [1, b]) ++ [0]
+def framed4 (a b c d : Bytes) : Bytes := frame a ++ (frame b ++ (frame c ++ frame d))
+
+theorem frame_append_inj : ∀ (x y r s : Bytes), frame x ++ r = frame y ++ s → x = y ∧ r = s
+  | [], [], r, s, h => by simpa [frame] using h
+  | [], b :: y, r, s, h => by simp [frame] at h
+  | a :: x, [], r, s, h => by simp [frame] at h
+  | a :: x, b :: y, r, s, h => by
+    simp only [frame, List.flatMap_cons, List.append_assoc, List.cons_append, List.nil_append, List.cons.injEq,
+      true_and] at h
+    obtain ⟨e, h⟩ := h
+    have := frame_append_inj x y r s (by simpa [frame] using h)
+    exact ⟨by rw [e, this.1], this.2⟩
+
+theorem H4Inj_satisfiable : H4Inj framed4 := by
+  intro a b c d a' b' c' d' h
+  unfold framed4 at h
+  obtain ⟨e1, h⟩ := frame_append_inj _ _ _ _ h
+  obtain ⟨e2, h⟩ := frame_append_inj _ _ _ _ h
+  obtain ⟨e3, h⟩ := frame_append_inj _ _ _ _ h
+  exact ⟨e1, e2, e3, (frame_append_inj d d' [] [] (by simpa using h)).1⟩
+
 namespace Trie
 
 /-- a child's prefix extends its parent's prefix and side bit -/
